@@ -49,6 +49,35 @@ def descendants(prog, roots):
     return dead, nodes
 
 
+F20 = "F20-try-except-sibling-timer-dies-after-failure-cycle"
+
+
+def f20_signature(p, res, fail_times):
+    """Known finding F20, narrowly: everything outside the try_except child is identical to the ideal model; inside the child
+    (and at the recorders of its outputs) the engine's evaluations are a subset of the model's, identical up to and
+    including the first failure cycle, and something is indeed missing afterwards (lost timer-driven evaluations)."""
+    from collections import Counter
+    if not fail_times:
+        return False
+    nodes = dataflow.expand(p)[0]
+    grp_names = {n["name"] for n in nodes if n.get("try_group")}
+    grp = {n["id"] for n in nodes if n.get("try_group") and n.get("id")}
+    tnames = {n["name"] for n in p["nodes"] if n["kind"] == "tryexcept"}
+    grp |= {s["id"] for s in p["sinks"] if s["port"].lstrip("~") in tnames or s["port"].lstrip("~") in grp_names}
+    grp |= {n.get("eid") for n in p["nodes"] if n["kind"] == "tryexcept"}
+    m, mcycles, mevents = dataflow.predicted(p)
+    cycles, obs = od.observed(res.events)
+    cm = Counter(od.key(e) for e in mevents if e.get("id", 0) and e["id"] not in grp)
+    co = Counter(od.key(e) for e in obs if e["id"] not in grp)
+    if cm != co:
+        return False
+    first = min(fail_times)
+    em = {(e["id"], e["t"]) for e in mevents if e["k"] == "ev" and e.get("id") in grp}
+    eo = {(e["id"], e["t"]) for e in obs if e["k"] == "ev" and e["id"] in grp}
+    missing = em - eo
+    return bool(missing) and eo <= em and all(t > first for (_, t) in missing) and set(cycles) <= set(mcycles)
+
+
 class C15:
     id = "C15"
     level = "fault_enumeration"
@@ -89,9 +118,15 @@ class C15:
         if rng.random() < 0.5 or not targets:
             ports = [n["name"] for n in prog["nodes"] if n["kind"] not in ("feedback", "delayed")]
             nm = "te1"
-            prog["nodes"].append(dict(name=nm, kind="tryexcept", g="SgFail", args=[rng.choice(ports)], p=1, q=1, id=4000, eid=rid))
+            if rng.random() < 0.5:
+                # the failing node comes first; an independent scheduler-scripted sibling (Timer1, tscript 40002) follows it
+                prog["nodes"].append(dict(name=nm, kind="tryexcept", g="SgFailT", args=[rng.choice(ports)], p=1, q=1, id=4000, eid=rid))
+                prog.setdefault("tscripts", {})[40002] = gen_dataflow.gen_tscript(rng, in_start=rng.random() < 0.5)
+                targets.append(dict(id=40001, errid=rid, name=nm + ".a", kind="try"))
+            else:
+                prog["nodes"].append(dict(name=nm, kind="tryexcept", g="SgFail", args=[rng.choice(ports)], p=1, q=1, id=4000, eid=rid))
+                targets.append(dict(id=40002, errid=rid, name=nm + ".b", kind="try"))
             prog["sinks"].append(dict(kind="rec", id=rid + 100, port=nm))
-            targets.append(dict(id=40002, errid=rid, name=nm + ".b", kind="try"))
             rid += 1
         return dict(prog=prog, targets=targets, seed=seed)
 
@@ -160,6 +195,7 @@ class C15:
                      probe_two_failing_nodes_same_cycle=0, probe_try_except_abandoned_cycle=0, simulated_time_us=prog["window"][1] - prog["window"][0])
         viol = None
         vtext = None
+        known = None
         digests = [base.digest]
         for faults in plans:
             p, text, res = self.run_one(prog, faults, fresh)
@@ -229,6 +265,12 @@ class C15:
                         break
             if not v:
                 v = od.check_against_model(p, res)
+                if v and any(n.get("g") == "SgFailT" for n in prog["nodes"]):
+                    # known finding F20: accepted only if the run equals the model in which a scheduler-driven sibling that was
+                    # skipped while its timer was due never wakes on its own again
+                    if f20_signature(p, res, [t for (_, t) in ftimes if t is not None]):
+                        known = F20
+                        v = None
             if v:
                 viol = dict(clause=v[0], detail="plan %s: %s" % (faults, v[1]))
                 vtext = (faults, text)
@@ -236,6 +278,8 @@ class C15:
         sample = dict(scenario=text0, plans=[list(map(list, p)) for p in plans[:5]])
         if viol:
             sample = dict(scenario=vtext[1], plan=[list(f) for f in vtext[0]])
+        elif known:
+            viol = dict(clause="known_class:F20", detail="a scheduler-driven sibling inside a try_except child never wakes again after a failure cycle in which its timer was due", known=known)
         return Outcome(violation=viol, stats=stats, digest="%016x" % runner.h64(digests), nontrivial=stats["faults_fired"]["F1_eval_captured"] > 0,
                        sample=sample, shape=runner.h64(dataflow.shape_key(prog), len(plans)))
 
